@@ -94,12 +94,22 @@ mutual
     | .cons t ts => .cons (t.subst args) (ts.subst args)
 end
 
-/-- constructors of `adt n args` with the arguments substituted; `none` if `n` is not declared -/
-def instCtors (decls : Decls) (n : Nat) (args : ATys) : Option (Bool × List (Nat × List ATy)) :=
+/-- how `adt n args` is laid out as data -/
+inductive Shape where
+  | undeclared
+  /-- `@list` single-constructor record: a plain list of the fields -/
+  | record (fields : List ATy)
+  /-- `(index, field types)` per constructor, arguments substituted -/
+  | variants (cs : List (Nat × List ATy))
+  deriving Repr
+
+def adtShape (decls : Decls) (n : Nat) (args : ATys) : Shape :=
   match decls[n]? with
-  | none => none
+  | none => .undeclared
   | some dt =>
-    some (dt.asList, (ctorTable 0 dt.ctors).map (fun c => (c.1, c.2.map (ATy.subst args.toList))))
+    match dt.asList, (ctorTable 0 dt.ctors).map (fun c => (c.1, c.2.map (ATy.subst args.toList))) with
+    | true, [c] => .record c.2
+    | _, cs => .variants cs
 
 -- ------------------------------------------------------------------ schemas
 /-- `Declaration<T>`; a reference is the (closed) type it was registered for —
@@ -157,10 +167,10 @@ def schemaOf (decls : Decls) : ATy → Option Schema
   | .pair a b => some (.pair (.ref a) (.ref b))
   | .tuple ts => some (.data (.tuple (refs ts.toList)))
   | .adt n args =>
-    match instCtors decls n args with
-    | none => none
-    | some (true, [(_, fs)]) => some (.data (.tuple (refs fs)))
-    | some (_, cs) => some (.data (.anyOf (cs.map (fun c => (c.1, refs c.2)))))
+    match adtShape decls n args with
+    | .undeclared => none
+    | .record fs => some (.data (.tuple (refs fs)))
+    | .variants cs => some (.data (.anyOf (cs.map (fun c => (c.1, refs c.2)))))
   | .var _ => none
 
 /-- the types `do_from_type` is called on while building the schema of `T` -/
@@ -171,9 +181,10 @@ def childTypes (decls : Decls) : ATy → List ATy
   | .pair a b => [a, b]
   | .tuple ts => ts.toList
   | .adt n args =>
-    match instCtors decls n args with
-    | none => []
-    | some (_, cs) => cs.flatMap (·.2)
+    match adtShape decls n args with
+    | .undeclared => []
+    | .record fs => fs
+    | .variants cs => cs.flatMap (·.2)
   | _ => []
 
 /-- `Definitions::register` driven by `from_type`: every reachable type is registered once
@@ -472,16 +483,15 @@ def inh (decls : Decls) : Nat → ATy → Data → Outcome
     else zipOk (fun t x => inh decls fuel t x) [a, b] xs
   | _ + 1, .pair _ _, _ => .mismatch
   | fuel + 1, .adt n args, d =>
-    match instCtors decls n args with
-    | none => .mismatch
-    | some (true, [(_, fs)]) =>
-      -- `@list` record
+    match adtShape decls n args with
+    | .undeclared => .mismatch
+    | .record fs =>
       match d with
       | .list xs =>
         if xs.length ≠ fs.length then .mismatch
         else zipOk (fun t x => inh decls fuel t x) fs xs
       | _ => .mismatch
-    | some (_, cs) =>
+    | .variants cs =>
       match d with
       | .constr tag fields => ctorLoop .mismatch (fun t x => inh decls fuel t x) tag fields cs
       | _ => .mismatch
@@ -551,11 +561,11 @@ def encode (decls : Decls) : Nat → ATy → Val → Option Data
     | some k, some w => some (.list [k, w])
     | _, _ => none
   | fuel + 1, .adt n args, .con pos vs =>
-    match instCtors decls n args with
-    | none => none
-    | some (true, [(_, fs)]) =>
+    match adtShape decls n args with
+    | .undeclared => none
+    | .record fs =>
       if pos = 0 then (zipOpt (fun t v => encode decls fuel t v) fs vs).map Data.list else none
-    | some (_, cs) =>
+    | .variants cs =>
       match cs[pos]? with
       | none => none
       | some (i, fs) => (zipOpt (fun t v => encode decls fuel t v) fs vs).map (Data.constr i)
